@@ -68,6 +68,35 @@ pub fn replay(v: &serde_json::Value) -> i32 {
 		println!("NOT-REPRODUCED");
 		return 0;
 	}
+	// ENUM replays of the server message checks: re-send exactly that message
+	if (prop == "C01" || prop == "C02") && r.get("message_hex").is_some() {
+		let hex = r["message_hex"].as_str().unwrap_or("");
+		let msg: Vec<u8> = (0..hex.len() / 2).filter_map(|i| u8::from_str_radix(&hex[2 * i..2 * i + 2], 16).ok()).collect();
+		let batch = match r["batch_config"].as_str().unwrap_or("Unlimited") {
+			"Disabled" => jsonrpsee_server::BatchRequestConfig::Disabled,
+			s if s.starts_with("Limit(") => jsonrpsee_server::BatchRequestConfig::Limit(s.trim_start_matches("Limit(").trim_end_matches(')').parse().unwrap_or(0)),
+			_ => jsonrpsee_server::BatchRequestConfig::Unlimited,
+		};
+		let rep = crate::report::Reporter::new(if prop == "C01" { "C01" } else { "C02" }, crate::report::Tier::Quick, 0, "exploration", 1);
+		let rt = crate::srv::rt();
+		let _e = rt.enter();
+		let mut http = crate::srv::http_service(crate::srv::cfg_builder().set_batch_request_config(batch).build());
+		let ws = crate::srv::ws_server(crate::srv::cfg_builder().set_batch_request_config(batch).build());
+		let mut local = crate::report::Local::default();
+		c01::run_case(&rep, &mut local, &rt, &mut http, &ws, "replay", &msg, batch, "");
+		let want = v["signature"].as_str().unwrap_or("");
+		println!("message: {:?}\nbatch config: {batch:?}", String::from_utf8_lossy(&msg));
+		let got = rep.reported();
+		for (sig, what) in &got {
+			println!("violation: {sig}: {what}");
+		}
+		if got.iter().any(|(s, _)| s == want) {
+			println!("REPRODUCED");
+			return 1;
+		}
+		println!("NOT-REPRODUCED");
+		return 0;
+	}
 	println!("replay of property {prop}: {}", serde_json::to_string_pretty(v).unwrap_or_default());
 	println!("(ENUM/HIST case: re-run `verif check {prop}` to re-evaluate it; the case is part of the enumerated space)");
 	0
